@@ -24,6 +24,10 @@ BRANCHES = [
     "destruct.no-inventory", "destruct.inventory-hooks", "destruct.hook-enabled-the-dying-object",
     "destruct.hook-disabled-the-dying-object", "take",
     "clone.blueprint-heart-beat-switched-off", "clone.blueprint-has-no-heart-beat", "timer-fired", "heart_beats()",
+    "error.caught-by-catch", "reload_object", "enable_commands", "eval_cost-used", "timer_flags-set",
+    "chb.call.living:command_giver=ob", "chb.call.not-living:command_giver=0", "chb.call.eval_cost-was-full",
+    "chb.call.eval_cost-reset-after-use", "chb.timer_flags-without-HEARTBEAT:empty",
+    "chb.timer_flags-without-HEARTBEAT:list-kept",
 ]
 
 
@@ -64,6 +68,25 @@ class C11(Prop):
         "NV.C11.sim_disable",
         "NV.C11.sim_set",
         "NV.C11.sim_round",
+        "NV.C11.sim_reload",
+        "NV.C11.sim_tick",
+        "NV.C11.gen_roundEntry_eq",
+        "NV.C11.gen_roundExit_eq",
+        "NV.C11.gen_roundSkip_eq",
+        "NV.C11.gen_callFrame_eq",
+        "NV.C11.gen_errOrder_eq",
+        "NV.C11.gen_errBlock_eq",
+        "NV.C11.timerFlagHeartbeat_val",
+        "NV.C11.errorHandler_eq_ref",
+        "NV.C11.callSetup_ref",
+        "NV.C11.callAfter_ref",
+        "NV.C11.finish_ref",
+        "NV.C11.tick_eq_ref",
+        "NV.C11.call_context_clean",
+        "NV.C11.call_context_accepted",
+        "NV.C11.caught_error_keeps_heart_beat",
+        "NV.C11.no_round_without_heartbeat_flag",
+        "NV.C11.round_entered_iff",
     ]
     witness_theorems = [
         "NV.C11.truncation_values",
@@ -205,6 +228,40 @@ class C11(Prop):
                                                             "tick", "tick"])
                 mk("last-removed-and-reenabled-n%d" % n, pop + ["script o2 hb:1 shb,o%d,0;shb,o%d,1;hbs" % (last, last),
                                                                 "tick", "tick", "tick"])
+        # --- errors caught inside a heart_beat never reach the switch-off
+        mk("catch-in-beat", pop3 + ["script o3 hb:* cerr;hbs", "tick", "tick", "do o0 hbs", "do o0 q,o3"])
+        mk("catch-then-uncaught", pop3 + ["script o3 hb:0 cerr;cerr;err", "script o2 hb:1 cerr", "tick", "do o0 hbs", "tick", "tick"])
+        mk("catch-at-top-level-after-aborted-round", pop3 + ["script o2 hb:0 err", "tick", "do o0 shb,o2,1", "do o3 cerr",
+                                                             "do o0 hbs", "tick"])
+        # --- reload_object: set_heart_beat (ob, 0), variables cleared (the script counter restarts), create() again
+        for pos in (2, 3, 4):
+            mk("reload-self-in-beat-o%d" % pos, pop3 + ["script o%d hb:0 reload,o%d,1;hbs" % (pos, pos), "tick", "tick",
+                                                         "do o0 hbs", "tick"])
+            mk("reload-o%d-by-o3" % pos, pop3 + ["script o3 hb:1 reload,o%d,2;hbs;q,o%d" % (pos, pos), "tick", "tick", "tick",
+                                                  "tick"])
+        mk("reload-to-zero-and-back", pop3 + ["script o2 hb:0 reload,o4,0;q,o4", "tick", "do o0 hbs", "do o3 reload,o4,3",
+                                              "do o0 reload,o0,1", "do o0 reload,o9,1", "tick", "tick", "tick", "tick"])
+        mk("reload-nohb-and-dead", ["do o0 clone,o2,1,1", "do o0 clone,o3,0,1", "do o0 reload,o2,1", "do o0 dest,o3",
+                                    "do o0 reload,o3,1", "do o0 hbs", "tick", "tick"])
+        mk("reload-clamps", ["do o0 clone,o2,0,1", "do o0 reload,o2,40000", "do o0 reload,o2,-3", "do o0 q,o2",
+                             "do o0 reload,o2,4294967297", "do o0 q,o2", "tick"])
+        # --- every heart_beat starts from a clean context: command_giver only for living objects, fresh eval cost
+        mk("context-living-and-not", pop3 + ["do o3 living", "script o2 hb:* burn", "script o3 hb:* burn;living", "tick", "tick"])
+        mk("context-after-error-of-living-object", pop3 + ["do o2 living", "script o2 hb:0 burn;err", "tick", "tick",
+                                                           "do o0 shb,o2,1", "tick"])
+        mk("context-living-becomes-living-in-beat", pop3 + ["script o2 hb:0 living", "script o3 hb:0 burn;burn", "tick", "tick"])
+        mk("context-reload-clears-living", pop3 + ["do o3 living", "tick", "do o0 reload,o3,1", "tick", "do o3 living", "tick"])
+        mk("context-living-item-and-carrier", pop3 + ["do o2 living", "do o3 living", "do o2 take,o3", "tick", "do o4 take,o2",
+                                                      "tick", "do o0 dest,o4", "tick"])
+        # --- timer_flags without TIMER_FLAG_HEARTBEAT: no round; the cursor variables keep stale values
+        mk("timer-flags-off", pop3 + ["tick", "tflags 0", "tick", "tick", "do o0 hbs", "tflags 2", "tick"])
+        mk("timer-flags-off-removals-on-stale-cursor", pop3 + ["script o3 hb:0 err", "tick", "tflags 0", "tick",
+                                                                "do o0 shb,o2,0", "do o0 shb,o4,0", "do o0 clone,o5,0,1",
+                                                                "do o0 shb,o5,0", "do o0 clone,o6,0,2", "do o0 hbs", "tick",
+                                                                "tflags 2", "tick", "tick", "do o0 hbs"])
+        mk("timer-flags-other-bits", pop3 + ["tflags 4", "tick", "tflags 6", "tick", "tflags 0", "tick", "tflags 2", "tick"])
+        mk("timer-flags-off-empty-list", ["tflags 0", "tick", "do o0 clone,o2,0,1", "tick", "tflags 2", "tick"])
+        mk("timer-fired-then-flags-off", pop3 + ["do o2 flag", "tflags 0", "tick", "tflags 2", "tick"])
         mk("empty", ["tick", "do o0 hbs", "tick"])
         mk("dead-and-unknown", ["do o0 clone,o2,0,1", "do o0 dest,o2", "do o0 dest,o2", "do o0 shb,o2,1", "do o0 q,o9",
                                 "do o2 hbs", "do o9 hbs", "do o0 dest,o0", "do o0 dest,o1", "do o0 clone,o2,0,1", "tick"])
@@ -214,7 +271,7 @@ class C11(Prop):
         ops = []
         for _ in range(n if n is not None else rng.weighted([(1, 6), (2, 4), (3, 2), (5, 1)])):
             k = rng.weighted([("shb", 12), ("q", 2), ("dest", 4), ("clone", 2), ("err", 2 if allow_err else 0),
-                              ("flag", 1), ("hbs", 2), ("take", 1)])
+                              ("flag", 1), ("hbs", 2), ("take", 1), ("cerr", 2), ("reload", 3), ("living", 1), ("burn", 1)])
             t = rng.choice(ids["all"])
             if k == "shb":
                 ops.append("shb,o%d,%d" % (t, rng.weighted(INTERVALS)))
@@ -224,6 +281,8 @@ class C11(Prop):
                 ops.append("dest,o%d" % t)
             elif k == "take":
                 ops.append("take,o%d" % t)
+            elif k == "reload":
+                ops.append("reload,o%d,%d" % (t, rng.weighted([(1, 6), (2, 3), (0, 2), (3, 1), (-1, 1), (40000, 1)])))
             elif k == "clone":
                 ids["next"] += 1
                 new = ids["next"] if rng.chance(14, 15) else rng.choice(ids["all"])
@@ -284,7 +343,14 @@ class C11(Prop):
                 if x not in ids["all"]:
                     ids["all"].append(x)
             body.append("script o%d %s %s" % (o, key, ";".join(ops)))
+        for o in pop0:
+            if rng.chance(1, 4):
+                body.append("do o%d living" % o)
         for _ in range(rng.range(3, 25)):
+            if rng.chance(1, 25):
+                # timer_flags: heart beats switched off / on again globally (bit TIMER_FLAG_HEARTBEAT = 2), with and
+                # without the call_out bit
+                body.append("tflags %d" % rng.weighted([(0, 4), (2, 4), (4, 2), (6, 2)]))
             if rng.chance(3, 5):
                 body.append("tick")
                 if rng.chance(1, 8):
@@ -296,7 +362,7 @@ class C11(Prop):
                 o = rng.choice(ids["all"])
                 for op in self.gen_ops(rng, ids, n=1):
                     body.append("do o%d %s" % (o, op))
-        body += ["tick", "do o0 hbs", "tick"]
+        body += ["tick", "do o0 hbs", "tflags 2", "tick", "do o0 hbs", "tick"]
         return E.Case(cid, body, {"origin": "generated"})
 
     def generate(self, rng, n, tier):
@@ -310,7 +376,7 @@ class C11(Prop):
         ctx = {}
         for tags in out.values():
             for t in tags:
-                base = t.split(":", 1)[1] if t.split(":", 1)[0] in ("create", "destruct", "error") else t
+                base = t.split(":", 1)[1] if t.split(":", 1)[0] in ("create", "destruct", "error", "reload") else t
                 cnt[base] = cnt.get(base, 0) + 1
                 if base != t:
                     k = t.split(":", 1)[0]
